@@ -4,7 +4,7 @@ claimed = {
  'C14': ('exploration', 'Trace monitor over whole simulated runs of the real CLI under swarm-random ordered option sequences and inputs with/without declarations of each theory: the mutator classes actually consulted are compared with a reference model of option processing and theory detection. The property has no schedule or fault in it (said plainly in DESIGN.md); the simulator contributes the whole-run trace across feeder thread and workers.', '4 (C14)', 'whole-run trace monitor under the simulator + reference model of option processing'),
  'C13': ('exploration', 'Seeded search over whole runs steered towards sharing-producing simplifications (histories of accepted steps of length >= 2); invariant checked at every construction of a new round and around every reduplicate call: node identities pairwise distinct, tokens unchanged, unique nodes keep their identity. The shared node-id counter is a seam (simulated shared value and lock, pre-emption at drawn accesses).', '4 (C13), 11, 14', 'whole-system deterministic simulation + state invariant at round boundaries'),
  'C10': ('exploration', 'Seeded search with command faults (hang, CPU spin, allocation blow-up, signal death, golden run exceeding the limit, match string absent) placed on pseudo-random candidates, on a simulated clock with simulated kernel limits; oracle: verdicts under the reference rule, kill-before-continue, no process left, no stall (deadlock detection), limits as documented, bounded simulated run time, status 1 before any candidate when the golden output lacks the match string.', '4 (C10)', 'deterministic simulation on a virtual clock with command-fault injection + deadlock detection'),
- 'C04': ('exploration', 'Seeded search with fault injection over whole runs on well-formed, damaged and unbalanced inputs through both launchers: usage errors, injected mutator exceptions (buggify), OSError on candidate files, SIGINT and MemoryError at main yield points; oracle: nothing but SystemExit leaves the launcher, exit status 0 iff completion, one-line diagnostics, and with a failing mutator M the result still is a fixed point of all other enabled mutators.', '4 (C04)', 'deterministic simulation with fault injection (mutator exceptions, I/O errors, interrupts, usage errors) + exit-status and isolation oracles'),
+ 'C04': ('exploration', 'Seeded search with fault injection over whole runs on well-formed, damaged (also nested deeper than the recursion limit) and unbalanced inputs through both launchers: usage errors, injected mutator exceptions (buggify), OSError on candidate files, SIGINT and MemoryError at main yield points; oracle: nothing but SystemExit leaves the launcher, exit status 0 iff completion, one-line diagnostics, and with a failing mutator M (injected at a drawn call site, or raising by itself on ill-formed input) the result still is a fixed point of all other enabled mutators.', '4 (C04)', 'deterministic simulation with fault injection (mutator exceptions, I/O errors, interrupts, usage errors) + exit-status and isolation oracles'),
  'C03': ('exploration', 'Seeded search over whole runs against adversarial (hash-sparse, non-monotone) command models with erasing mutators often disabled and inputs biased to the risky shapes; oracle: no adopted input is revisited, bounded number of adopted steps, and a deterministic per-step instruction budget (jump counter) (jumps and calls) that turns a non-terminating or exponential mutator step into a reproducible failure; neighbourhood adversaries, complexity-stress inputs (deep / wide terms), a corpus of would-be cycles and a growth corpus with a regression bound. Bounded liveness, by sampling; unbounded growth in general is not decided (DESIGN 11).', '4 (C03), 11', 'whole-system deterministic simulation with adversarial peers + history oracle (no revisit) + deterministic hang budget'),
  'C02': ('exploration', 'Seeded search over whole hierarchical/hybrid runs (schedules, -j, mutator subsets, non-monotone command models); after each run every proposal of every enabled mutator on the final in-memory input is re-enumerated with ddSMT\'s own mutators and judged by the command model under the reference rule.', '4 (C02)', 'whole-system deterministic simulation + exhaustive re-enumeration oracle on the final state'),
  'C09': ('exploration', 'Every individual check of sampled whole runs (scripted exit/stdout/stderr outcomes of command and cross-check command from a colliding alphabet x all comparison options x --unchecked) is compared with an independent statement of the documented rule; argv of every invocation is checked. Sampling of the option x outcome classes with a measured coverage table.', '4 (C09)', 'deterministic simulation with scripted command outcomes + reference-rule oracle per check'),
